@@ -64,7 +64,7 @@ struct World {
 
 fn open_key(raw: &RawSealKey<CS>) -> OpenKey<CS> {
     OpenKey::from_raw(&RawOpenKey { key: raw.key.clone(), base_nonce: raw.base_nonce.clone() })
-        .unwrap_or_else(|e| vrt::die(&format!("OpenKey::from_raw: {e}")))
+        .unwrap_or_else(|e| panic!("HONEST-FAIL OpenKey::from_raw: {e}"))
 }
 
 /// Longest run of positions where `buf[i] == pt[i]`.
@@ -106,7 +106,10 @@ pub fn run(args: &Args) {
     for (i, b) in args.read_input().iter().enumerate() {
         match vrt::catch_any(|| one(args.seed, i, b)) {
             Ok(v) => out.emit(v),
-            Err(p) => out.fail(i, -1, "C39:harness-panic", &format!("panic outside the open call: {p}"), json!({})),
+            Err(p) => {
+                let key = if p.starts_with("HONEST-FAIL") { "C39:honest-operation-failed" } else { "C39:harness-panic" };
+                out.fail(i, -1, key, &format!("panic outside the open call: {p}"), json!({}))
+            }
         }
     }
     out.finish();
@@ -142,12 +145,15 @@ fn one(seed: u64, i: usize, b: &Value) -> Value {
 
     // ---- sealer side
     let sealer = Client::new(State::<CS>::new());
-    let seal_key = SealKey::<CS>::from_raw(&w.raw_a, Seq::ZERO).unwrap_or_else(|e| vrt::die(&format!("SealKey::from_raw: {e}")));
+    // the channel does not have to be fresh: start the seal context at sequence numbers around
+    // byte-width boundaries as well (the spec's numbers are relative to this base)
+    let base: u64 = [0, 0, 255, 65_535, 4_294_967_295, 1 << 40][(seed as usize + i) % 6];
+    let seal_key = SealKey::<CS>::from_raw(&w.raw_a, Seq::new(base)).unwrap_or_else(|e| panic!("HONEST-FAIL SealKey::from_raw: {e}"));
     let sid = sealer
         .state()
         .add(Directed::SealOnly { seal: seal_key }, w.label_a, peer)
-        .unwrap_or_else(|e| vrt::die(&format!("add seal channel: {e}")));
-    let mut sctx = sealer.setup_seal_ctx(sid).unwrap_or_else(|e| vrt::die(&format!("setup_seal_ctx: {e}")));
+        .unwrap_or_else(|e| panic!("HONEST-FAIL add seal channel: {e}"));
+    let mut sctx = sealer.setup_seal_ctx(sid).unwrap_or_else(|e| panic!("HONEST-FAIL setup_seal_ctx: {e}"));
     for (k, &n) in lens.iter().enumerate() {
         if failat == k as i64 {
             // SealSmallDst: one byte short
@@ -190,7 +196,7 @@ fn one(seed: u64, i: usize, b: &Value) -> Value {
     }
     // SeqDense (spec invariant; C40's subject — reported as drift here)
     let mut drift = 0u64;
-    if w.msgs.iter().enumerate().any(|(k, m)| m.seq != k as u64) {
+    if w.msgs.iter().enumerate().any(|(k, m)| m.seq != base + k as u64) {
         drift += 1;
     }
 
@@ -219,7 +225,7 @@ fn one(seed: u64, i: usize, b: &Value) -> Value {
             }
         }
         "hdrseq" => {
-            let v = if a == 999 { u64::MAX } else { a as u64 }; // SeqLimit
+            let v = if a == 999 { u64::MAX } else { base + a as u64 }; // SeqLimit
             pres[n + TAG..].copy_from_slice(&v.to_le_bytes())
         }
         "splice" => {
@@ -256,8 +262,8 @@ fn one(seed: u64, i: usize, b: &Value) -> Value {
     let oid: LocalChannelId = client
         .state()
         .add(Directed::OpenOnly { open: okey }, olabel, peer)
-        .unwrap_or_else(|e| vrt::die(&format!("add open channel: {e}")));
-    let mut octx = client.setup_open_ctx(oid).unwrap_or_else(|e| vrt::die(&format!("setup_open_ctx: {e}")));
+        .unwrap_or_else(|e| panic!("HONEST-FAIL add open channel: {e}"));
+    let mut octx = client.setup_open_ctx(oid).unwrap_or_else(|e| panic!("HONEST-FAIL setup_open_ctx: {e}"));
 
     // the plaintext whose leak we look for: the target's (the presented bytes derive from it)
     let secret = m.pt.clone();
@@ -295,7 +301,7 @@ fn one(seed: u64, i: usize, b: &Value) -> Value {
                         if *label != w.label_a {
                             return fail(i, round, "C39:wrong-label", "open returned a label different from the channel's", obs(got));
                         }
-                        if *seq != s.seq || *seq != x as u64 {
+                        if *seq != s.seq || *seq != base + x as u64 {
                             return fail(i, round, "C39:wrong-seq", "open returned a sequence number different from the one used when sealing", obs(got));
                         }
                         if iface == "open" && buf.len() > pt.len() && buf[pt.len()..].iter().any(|&c| c != SENTINEL) {
